@@ -201,7 +201,18 @@ def run(tape, kind):
     sp.REC.reset(None)
     run_ = sr.SamplerRun(tape, out, spec, wl, sched)
     res = None
-    for (n, obj) in calls:
+    for ci_, (n, obj) in enumerate(calls):
+        if ci_ > 0 and tape.chance('abandoned_objective', 1, 4):
+            # an objective that is set but never run (the user changes their mind) must not
+            # leave anything behind
+            key_ = list(obj)[0]
+            other = [v * 2.0 + 0.5 for v in obj[key_]] if key_ == 'thresholds' else \
+                [min(0.95, v + 0.2) for v in obj[key_]]
+            try:
+                run_.sampler.set_objective(n, **{key_: other + other[:1]})
+                out.probes['abandoned_objective'] += 1
+            except Exception as e:
+                run_.errors.append(e)
         r = run_.sample(n, **obj)
         if r is None:
             if run_.errors and not out.inconclusive:
